@@ -294,8 +294,18 @@ func (d *KafkaDriver) Send(key, data []byte) error {
 }
 
 func (d *KafkaDriver) Close() error {
-	d.producer.Close()
+	// Close flushes what is buffered and returns the deliveries that failed meanwhile: they are
+	// reported, not dropped (the producer hands them to Close instead of its Errors channel)
+	err := d.producer.Close()
 	close(d.q)
+	if err != nil {
+		terr := &KafkaTransportError{err}
+		select {
+		case d.errors <- terr:
+		case <-time.After(time.Second):
+		}
+		return terr
+	}
 	return nil
 }
 
